@@ -8,131 +8,267 @@ import Molli.Model.Dispatch
 namespace Molli.Lemmas.Dispatch
 open Molli.Model.Dispatch
 
+/-! ## the five dimensions of the property (`Config`) -/
+
 theorem Entry.mem_all (e : Entry) : e ∈ Entry.all := by cases e <;> decide
 theorem Fmt.mem_all (f : Fmt) : f ∈ Fmt.all := by cases f <;> decide
 theorem Kind.mem_all (k : Kind) : k ∈ Kind.all := by cases k <;> decide
 theorem OType.mem_all (o : OType) : o ∈ OType.all := by cases o <;> decide
 theorem NameArg.mem_all (n : NameArg) : n ∈ NameArg.all := by cases n <;> decide
 
-/-- `allCells` really is the whole matrix. -/
-theorem mem_allCells (c : Cell) : c ∈ allCells := by
+theorem PathForm.mem_all (p : PathForm) : p ∈ PathForm.all := by cases p <;> decide
+
+theorem mem_allConfigs (c : Config) : c ∈ allConfigs := by
   obtain ⟨e, f, k, o, n⟩ := c
-  simp only [allCells, List.mem_flatMap, List.mem_map]
+  simp only [allConfigs, List.mem_flatMap, List.mem_map]
   exact ⟨e, Entry.mem_all e, f, Fmt.mem_all f, k, Kind.mem_all k, o, OType.mem_all o, n, NameArg.mem_all n, rfl⟩
 
-theorem allCells_length : allCells.length = 432 := by decide +kernel
+/-- `allCells` really is the whole matrix. -/
+theorem mem_allCells (c : Cell) : c ∈ allCells := by
+  obtain ⟨b, p⟩ := c
+  simp only [allCells, List.mem_flatMap, List.mem_map]
+  exact ⟨b, mem_allConfigs b, p, PathForm.mem_all p, rfl⟩
+
+theorem allCells_length : allCells.length = 2160 := by decide +kernel
 
 /-- a Boolean check over the table of all cells is a statement about every cell -/
 theorem forall_of_allCells {p : Cell → Bool} (h : allCells.all p = true) (c : Cell) : p c = true :=
   List.all_eq_true.mp h c (mem_allCells c)
 
-/-- the row index is injective on the matrix: no two cells share a table row -/
-theorem idx_lt (c : Cell) : c.idx < 432 := by
+theorem cfg_idx_lt (c : Config) : c.idx < 432 := by
   obtain ⟨e, f, k, o, n⟩ := c
   cases e <;> cases f <;> cases k <;> cases o <;> cases n <;> decide
 
-theorem idx_injective_table : (allCells.map Cell.idx) = List.range 432 := by decide +kernel
+/-- every cell has a row of the table -/
+theorem idx_lt (c : Cell) : c.idx < 2160 := by
+  have h := cfg_idx_lt c.toConfig
+  have hp : c.form.idx < 5 := by cases c.form <;> decide
+  unfold Cell.idx; omega
 
-/-! ### what `spec` says, for every class-level behaviour -/
+/-- the row index is injective on the matrix: no two cells share a table row -/
+theorem idx_injective_table : (allCells.map Cell.idx) = List.range 2160 := by decide +kernel
+
+/-- row `c.idx` of the enumeration is the cell `c` itself -/
+theorem allCells_at_idx (c : Cell) : allCells[c.idx]? = some c := by
+  obtain ⟨i, hi, hc⟩ := List.mem_iff_getElem.mp (mem_allCells c)
+  have h1 : (allCells.map Cell.idx)[i]? = some c.idx := by
+    simp [List.getElem?_map, List.getElem?_eq_getElem hi, hc]
+  rw [idx_injective_table] at h1
+  have hi' : i < 2160 := by rw [← allCells_length]; exact hi
+  rw [List.getElem?_range hi'] at h1
+  have : i = c.idx := by simpa using h1
+  subst this
+  rw [List.getElem?_eq_getElem hi, hc]
+
+/-- a single pass over the table next to the enumeration of the matrix is a statement about every cell looked up by
+its row index -/
+theorem lookup_of_zip_all {tbl : List Action} {f : Cell → Action} (hlen : tbl.length = 2160)
+    (h : (tbl.zip allCells).all (fun p => decide (p.1 = f p.2)) = true) (c : Cell) :
+    tbl.getD c.idx Action.missing = f c := by
+  have hi : c.idx < tbl.length := by rw [hlen]; exact idx_lt c
+  have hz : (tbl.zip allCells)[c.idx]? = some (tbl[c.idx], c) := by
+    rw [List.getElem?_zip_eq_some]
+    exact ⟨List.getElem?_eq_getElem hi, allCells_at_idx c⟩
+  have hm : (tbl[c.idx], c) ∈ tbl.zip allCells := List.mem_of_getElem? hz
+  have := List.all_eq_true.mp h _ hm
+  simp only [decide_eq_true_eq] at this
+  simp [List.getD, List.getElem?_eq_getElem hi, this]
+
+/-! ### what `specCfg` says, for every class-level behaviour -/
 
 section
 variable (cr : ClassRaises)
 
-theorem spec_na (c : Cell) (h : applicable c = false) : spec cr c = Action.na := by
-  simp [spec, h]
+theorem cfg_na (c : Config) (h : applicableCfg c = false) : specCfg cr c = Action.na := by
+  simp [specCfg, h]
 
-theorem spec_applicable (c : Cell) : (spec cr c).applicable = applicable c := by
+theorem cfg_applicable (c : Config) : (specCfg cr c).applicable = applicableCfg c := by
   obtain ⟨e, f, k, o, n⟩ := c
   cases e <;> cases f <;> cases k <;> cases o <;> cases n <;>
-    simp [spec, applicable, Action.na, refuse, viaCodec, Entry.listPromised]
+    simp [specCfg, applicableCfg, Action.na, refuse, viaCodec, Entry.listPromised]
 
 /-- no cell of the specification leaves a caller's stream closed or an own file handle open -/
-theorem spec_streamOk (c : Cell) : (spec cr c).streamOk = true := by
+theorem cfg_streamOk (c : Config) : (specCfg cr c).streamOk = true := by
   obtain ⟨e, f, k, o, n⟩ := c
   cases e <;> cases f <;> cases k <;> cases o <;> cases n <;>
-    simp [spec, applicable, Action.na, refuse, viaCodec, Entry.listPromised]
+    simp [specCfg, applicableCfg, Action.na, refuse, viaCodec, Entry.listPromised]
 
-theorem spec_unsupported (c : Cell) (ha : applicable c = true) (hf : c.fmt = .unsupported) :
-    spec cr c = refuse .valueError := by
+theorem cfg_unsupported (c : Config) (ha : applicableCfg c = true) (hf : c.fmt = .unsupported) :
+    specCfg cr c = refuse .valueError := by
   obtain ⟨e, f, k, o, n⟩ := c
   simp only at hf; subst hf
-  cases e <;> cases k <;> cases o <;> cases n <;> simp_all [spec, applicable, Entry.listPromised]
+  cases e <;> cases k <;> cases o <;> cases n <;> simp_all [specCfg, applicableCfg, Entry.listPromised]
 
 /-- a list loader returns a list of the requested class or raises; it never returns a bare object -/
-theorem spec_list (c : Cell) (hl : c.entry.listPromised = true) (k : RetKind)
-    (hr : (spec cr c).result = .returned k) : k = .list c.otype.cls := by
+theorem cfg_list (c : Config) (hl : c.entry.listPromised = true) (k : RetKind)
+    (hr : (specCfg cr c).result = .returned k) : k = .list c.otype.cls := by
   obtain ⟨e, f, kd, o, n⟩ := c
   cases e <;> simp [Entry.listPromised] at hl <;>
     cases f <;> cases kd <;> cases o <;> cases n <;>
-      simp [spec, applicable, Action.na, refuse, viaCodec, Entry.listPromised, retKind] at hr <;>
+      simp [specCfg, applicableCfg, Action.na, refuse, viaCodec, Entry.listPromised, retKind] at hr <;>
       (first | (split at hr <;> simp_all [OType.cls]) | simp_all [OType.cls])
 
 /-- for the molli codecs (xyz, mol2) a list loader asked for molecules / structures returns a list whenever the
 class-level codec works -/
-theorem spec_list_returned (c : Cell) (ha : applicable c = true) (hl : c.entry.listPromised = true)
+theorem cfg_list_returned (c : Config) (ha : applicableCfg c = true) (hl : c.entry.listPromised = true)
     (ho : c.otype ≠ .ensemble) (hf : c.fmt = .xyz ∨ c.fmt = .mol2) (hc : cr c.otype c.entry c.fmt = false) :
-    (spec cr c).result = .returned (.list c.otype.cls) := by
+    (specCfg cr c).result = .returned (.list c.otype.cls) := by
   obtain ⟨e, f, kd, o, n⟩ := c
   simp only at hf hc ho
   rcases hf with rfl | rfl <;>
     cases e <;> simp [Entry.listPromised] at hl <;>
       cases kd <;> cases o <;> cases n <;>
-        simp_all [spec, applicable, viaCodec, Entry.listPromised, retKind, OType.cls]
+        simp_all [specCfg, applicableCfg, viaCodec, Entry.listPromised, retKind, OType.cls]
 
 /-- whenever a name is given and the entry point returns, the name was forwarded and the result carries it -/
-theorem spec_name (c : Cell) (hn : c.name = .given) (k : RetKind) (hr : (spec cr c).result = .returned k) :
-    (spec cr c).nameFwd = true ∧ (spec cr c).named = true := by
+theorem cfg_name (c : Config) (hn : c.name = .given) (k : RetKind) (hr : (specCfg cr c).result = .returned k) :
+    (specCfg cr c).nameFwd = true ∧ (specCfg cr c).named = true := by
   obtain ⟨e, f, kd, o, n⟩ := c
   simp only at hn; subst hn
   cases e <;> cases f <;> cases kd <;> cases o <;>
-    simp [spec, applicable, Action.na, refuse, viaCodec, Entry.listPromised] at hr ⊢ <;>
+    simp [specCfg, applicableCfg, Action.na, refuse, viaCodec, Entry.listPromised] at hr ⊢ <;>
     (first | (split at hr <;> simp_all [Entry.isLoader]) | simp_all [Entry.isLoader])
 
 /-- no name given: none is invented -/
-theorem spec_no_name (c : Cell) (hn : c.name = .notGiven) :
-    (spec cr c).nameFwd = false ∧ (spec cr c).named = false := by
+theorem cfg_no_name (c : Config) (hn : c.name = .notGiven) :
+    (specCfg cr c).nameFwd = false ∧ (specCfg cr c).named = false := by
   obtain ⟨e, f, kd, o, n⟩ := c
   simp only at hn; subst hn
   cases e <;> cases f <;> cases kd <;> cases o <;>
-    simp [spec, applicable, Action.na, refuse, viaCodec, Entry.listPromised]
+    simp [specCfg, applicableCfg, Action.na, refuse, viaCodec, Entry.listPromised]
 
 /-- `dump` into an open stream: when it returns, it returned `None` and the text is in the caller's stream -/
-theorem spec_dump_stream (c : Cell) (he : c.entry = .dump) (hk : c.kind = .stream) (k : RetKind)
-    (hr : (spec cr c).result = .returned k) : k = .none ∧ (spec cr c).wrote = .callerStream := by
+theorem cfg_dump_stream (c : Config) (he : c.entry = .dump) (hk : c.kind = .stream) (k : RetKind)
+    (hr : (specCfg cr c).result = .returned k) : k = .none ∧ (specCfg cr c).wrote = .callerStream := by
   obtain ⟨e, f, kd, o, n⟩ := c
   simp only at he hk; subst he hk
   cases f <;> cases o <;> cases n <;>
-    simp [spec, applicable, Action.na, refuse, viaCodec, Entry.listPromised, retKind, target] at hr ⊢ <;>
+    simp [specCfg, applicableCfg, Action.na, refuse, viaCodec, Entry.listPromised, retKind, target] at hr ⊢ <;>
     (first | (split at hr <;> simp_all) | simp_all)
 
 /-- for the molli codecs the class method of the requested class, operation and format is the one reached, and
 it receives the caller's source / target -/
-theorem spec_reaches (c : Cell) (ha : applicable c = true) (hf : c.fmt = .xyz ∨ c.fmt = .mol2)
+theorem cfg_reaches (c : Config) (ha : applicableCfg c = true) (hf : c.fmt = .xyz ∨ c.fmt = .mol2)
     (hle : ¬ (c.entry.listPromised = true ∧ c.otype = .ensemble)) :
-    (spec cr c).reached = .meth c.otype.cls c.entry.mop c.fmt ∧ (spec cr c).argOk = true := by
+    (specCfg cr c).reached = .meth c.otype.cls c.entry.mop c.fmt ∧ (specCfg cr c).argOk = true := by
   obtain ⟨e, f, kd, o, n⟩ := c
   simp only at hf hle
   rcases hf with rfl | rfl <;>
     cases e <;> cases kd <;> cases o <;> cases n <;>
-      simp_all [spec, applicable, viaCodec, Entry.listPromised, OType.cls, Entry.mop]
+      simp_all [specCfg, applicableCfg, viaCodec, Entry.listPromised, OType.cls, Entry.mop]
 
 /-- a failure of the class-level codec comes through unchanged -/
-theorem spec_propagates (c : Cell) (ha : applicable c = true) (hf : c.fmt = .xyz ∨ c.fmt = .mol2)
+theorem cfg_propagates (c : Config) (ha : applicableCfg c = true) (hf : c.fmt = .xyz ∨ c.fmt = .mol2)
     (hle : ¬ (c.entry.listPromised = true ∧ c.otype = .ensemble)) (hc : cr c.otype c.entry c.fmt = true) :
-    (spec cr c).result = .propagated := by
+    (specCfg cr c).result = .propagated := by
   obtain ⟨e, f, kd, o, n⟩ := c
   simp only at hf hle hc
   rcases hf with rfl | rfl <;>
     cases e <;> cases kd <;> cases o <;> cases n <;>
-      simp_all [spec, applicable, viaCodec, Entry.listPromised]
+      simp_all [specCfg, applicableCfg, viaCodec, Entry.listPromised]
 
 /-- the entry points never raise anything but ValueError / NotImplementedError by themselves -/
-theorem spec_raises_only (c : Cell) (e : Exc) (hr : (spec cr c).result = .raised e) :
+theorem cfg_raises_only (c : Config) (e : Exc) (hr : (specCfg cr c).result = .raised e) :
     e = .valueError ∨ (e = .notImplemented ∧ c.fmt = .cdxml ∧ (c.entry = .loads ∨ c.entry = .loadsAll)) := by
   obtain ⟨en, f, kd, o, n⟩ := c
   cases en <;> cases f <;> cases kd <;> cases o <;> cases n <;>
-    simp [spec, applicable, Action.na, refuse, viaCodec, Entry.listPromised] at hr ⊢ <;>
+    simp [specCfg, applicableCfg, Action.na, refuse, viaCodec, Entry.listPromised] at hr ⊢ <;>
     (first | (split at hr <;> simp_all) | simp_all)
+
+end
+
+/-! ## the whole matrix (`Cell` = `Config` × form of the path argument) -/
+
+section
+variable (cr : ClassRaises)
+
+theorem spec_of_form (c : Cell) (h : formApplicable c = true) : spec cr c = specCfg cr c.toConfig := by
+  simp [spec, h]
+
+theorem spec_of_not_form (c : Cell) (h : formApplicable c = false) : spec cr c = Action.na := by
+  simp [spec, h]
+
+theorem form_of_applicable (c : Cell) (ha : applicable c = true) :
+    formApplicable c = true ∧ applicableCfg c.toConfig = true := by
+  simp only [applicable, Bool.and_eq_true] at ha; exact ⟨ha.2, ha.1⟩
+
+/-- the new dimension changes nothing: for a path source / target, whatever suffix the path carries and whether
+the format is given or deduced from the matching suffix, the demanded action is that of the plain configuration -/
+theorem spec_form_irrelevant (c : Cell) (hk : c.kind = .path) (p : PathForm) :
+    spec cr ⟨c.toConfig, p⟩ = spec cr c := by
+  have h1 : formApplicable ⟨c.toConfig, p⟩ = true := by simp [formApplicable, hk]
+  have h2 : formApplicable c = true := by simp [formApplicable, hk]
+  rw [spec_of_form cr _ h1, spec_of_form cr _ h2]
+
+theorem spec_applicable (c : Cell) : (spec cr c).applicable = applicable c := by
+  by_cases h : formApplicable c = true
+  · rw [spec_of_form cr c h, cfg_applicable]; simp [applicable, h]
+  · have h' : formApplicable c = false := by simpa using h
+    rw [spec_of_not_form cr c h']; simp [applicable, h', Action.na]
+
+theorem spec_streamOk (c : Cell) : (spec cr c).streamOk = true := by
+  by_cases h : formApplicable c = true
+  · rw [spec_of_form cr c h]; exact cfg_streamOk cr _
+  · have h' : formApplicable c = false := by simpa using h
+    rw [spec_of_not_form cr c h']; rfl
+
+theorem spec_unsupported (c : Cell) (ha : applicable c = true) (hf : c.fmt = .unsupported) :
+    spec cr c = refuse .valueError := by
+  obtain ⟨h1, h2⟩ := form_of_applicable c ha
+  rw [spec_of_form cr c h1]; exact cfg_unsupported cr _ h2 hf
+
+theorem spec_list (c : Cell) (hl : c.entry.listPromised = true) (k : RetKind)
+    (hr : (spec cr c).result = .returned k) : k = .list c.otype.cls := by
+  by_cases h : formApplicable c = true
+  · rw [spec_of_form cr c h] at hr; exact cfg_list cr _ hl k hr
+  · have h' : formApplicable c = false := by simpa using h
+    rw [spec_of_not_form cr c h'] at hr; simp [Action.na] at hr
+
+theorem spec_list_returned (c : Cell) (ha : applicable c = true) (hl : c.entry.listPromised = true)
+    (ho : c.otype ≠ .ensemble) (hf : c.fmt = .xyz ∨ c.fmt = .mol2) (hc : cr c.otype c.entry c.fmt = false) :
+    (spec cr c).result = .returned (.list c.otype.cls) := by
+  obtain ⟨h1, h2⟩ := form_of_applicable c ha
+  rw [spec_of_form cr c h1]; exact cfg_list_returned cr _ h2 hl ho hf hc
+
+theorem spec_name (c : Cell) (hn : c.name = .given) (k : RetKind) (hr : (spec cr c).result = .returned k) :
+    (spec cr c).nameFwd = true ∧ (spec cr c).named = true := by
+  by_cases h : formApplicable c = true
+  · rw [spec_of_form cr c h] at hr ⊢; exact cfg_name cr _ hn k hr
+  · have h' : formApplicable c = false := by simpa using h
+    rw [spec_of_not_form cr c h'] at hr; simp [Action.na] at hr
+
+theorem spec_no_name (c : Cell) (hn : c.name = .notGiven) :
+    (spec cr c).nameFwd = false ∧ (spec cr c).named = false := by
+  by_cases h : formApplicable c = true
+  · rw [spec_of_form cr c h]; exact cfg_no_name cr _ hn
+  · have h' : formApplicable c = false := by simpa using h
+    rw [spec_of_not_form cr c h']; simp [Action.na]
+
+theorem spec_dump_stream (c : Cell) (he : c.entry = .dump) (hk : c.kind = .stream) (k : RetKind)
+    (hr : (spec cr c).result = .returned k) : k = .none ∧ (spec cr c).wrote = .callerStream := by
+  by_cases h : formApplicable c = true
+  · rw [spec_of_form cr c h] at hr ⊢; exact cfg_dump_stream cr _ he hk k hr
+  · have h' : formApplicable c = false := by simpa using h
+    rw [spec_of_not_form cr c h'] at hr; simp [Action.na] at hr
+
+theorem spec_reaches (c : Cell) (ha : applicable c = true) (hf : c.fmt = .xyz ∨ c.fmt = .mol2)
+    (hle : ¬ (c.entry.listPromised = true ∧ c.otype = .ensemble)) :
+    (spec cr c).reached = .meth c.otype.cls c.entry.mop c.fmt ∧ (spec cr c).argOk = true := by
+  obtain ⟨h1, h2⟩ := form_of_applicable c ha
+  rw [spec_of_form cr c h1]; exact cfg_reaches cr _ h2 hf hle
+
+theorem spec_propagates (c : Cell) (ha : applicable c = true) (hf : c.fmt = .xyz ∨ c.fmt = .mol2)
+    (hle : ¬ (c.entry.listPromised = true ∧ c.otype = .ensemble)) (hc : cr c.otype c.entry c.fmt = true) :
+    (spec cr c).result = .propagated := by
+  obtain ⟨h1, h2⟩ := form_of_applicable c ha
+  rw [spec_of_form cr c h1]; exact cfg_propagates cr _ h2 hf hle hc
+
+theorem spec_raises_only (c : Cell) (e : Exc) (hr : (spec cr c).result = .raised e) :
+    e = .valueError ∨ (e = .notImplemented ∧ c.fmt = .cdxml ∧ (c.entry = .loads ∨ c.entry = .loadsAll)) := by
+  by_cases h : formApplicable c = true
+  · rw [spec_of_form cr c h] at hr; exact cfg_raises_only cr _ e hr
+  · have h' : formApplicable c = false := by simpa using h
+    rw [spec_of_not_form cr c h'] at hr; simp [Action.na] at hr
 
 end
 end Molli.Lemmas.Dispatch
